@@ -1,9 +1,12 @@
 #!/usr/bin/env python3
 """tools/seedrun.py <dir with patch.diff> [property ...]
 
-Applies a seeded change to /repo (git apply), runs the quick checks (all, or the named ones) with evidence redirected to
-a scratch directory, prints which keys fire, and undoes the change (git checkout -- .).  Never commits."""
-import json, os, subprocess, sys, tempfile, shutil
+Runs the quick checks (all, or the named ones) against a seeded change WITHOUT touching /repo: the files named by the
+patch are copied to a scratch directory, patched there, and handed to the analysers through the same virtual-file
+override that bin/selftest uses (XZ_VERIF_OVERRIDE for C sources/headers, XZ_VERIF_FILE_OVERRIDE for scripts).
+Equivalent to `git -C /repo apply patch.diff; bin/check ...; git -C /repo checkout -- .` for patches that only modify
+existing files."""
+import json, os, re, subprocess, sys, tempfile, shutil
 from concurrent.futures import ThreadPoolExecutor
 
 VERIF = os.path.dirname(os.path.dirname(os.path.abspath(__file__)))
@@ -15,19 +18,27 @@ def main():
     d = sys.argv[1]
     props = sys.argv[2:] or ALL
     patch = os.path.join(d, "patch.diff")
-    st = subprocess.run(["git", "-C", REPO, "status", "--porcelain", "--untracked-files=no"], capture_output=True, text=True)
-    if st.stdout.strip():
-        print("refusing: /repo has local modifications:\n" + st.stdout)
-        return 2
-    r = subprocess.run(["git", "-C", REPO, "apply", patch], capture_output=True, text=True)
-    if r.returncode != 0:
-        print("patch does not apply: " + r.stderr)
-        return 2
-    out = {}
+    txt = open(patch).read()
+    files = re.findall(r"^\+\+\+ b/(\S+)", txt, re.M)
+    tmp = tempfile.mkdtemp(prefix="xzverif-seedsrc-")
     try:
+        for f in files:
+            os.makedirs(os.path.dirname(os.path.join(tmp, f)), exist_ok=True)
+            shutil.copy(os.path.join(REPO, f), os.path.join(tmp, f))
+        r = subprocess.run(["patch", "-p1", "-s", "-d", tmp, "-i", os.path.abspath(patch)], capture_output=True, text=True)
+        if r.returncode != 0:
+            print("patch does not apply to the current tree: " + (r.stdout + r.stderr)[-300:])
+            return 2
+        c_ov = ",".join("%s=%s" % (os.path.join(REPO, f), os.path.join(tmp, f)) for f in files if f.endswith((".c", ".h")))
+        o_ov = ",".join("%s=%s" % (os.path.join(REPO, f), os.path.join(tmp, f)) for f in files if not f.endswith((".c", ".h")))
+
         def one(p):
             ev = tempfile.mkdtemp(prefix="xzverif-seed-")
             env = dict(os.environ, VERIF_EVIDENCE_DIR=ev)
+            if c_ov:
+                env["XZ_VERIF_OVERRIDE"] = c_ov
+            if o_ov:
+                env["XZ_VERIF_FILE_OVERRIDE"] = o_ov
             rr = subprocess.run([os.path.join(VERIF, "bin", "check"), p], capture_output=True, text=True, env=env)
             keys = []
             vd = os.path.join(ev, "violations")
@@ -38,15 +49,17 @@ def main():
             shutil.rmtree(ev, ignore_errors=True)
             broken = [l for l in rr.stdout.splitlines() if l.startswith("ANALYSIS-BROKEN")]
             return p, rr.returncode, keys, broken
-        with ThreadPoolExecutor(max_workers=6) as ex:
+        out = {}
+        with ThreadPoolExecutor(max_workers=5) as ex:
             for p, rc, keys, broken in ex.map(one, props):
                 out[p] = (rc, keys, broken)
     finally:
-        subprocess.run(["git", "-C", REPO, "checkout", "--", "."], check=True)
-    fired = {p: v for p, v in out.items() if v[0] != 0}
+        shutil.rmtree(tmp, ignore_errors=True)
+    fired = False
     for p, (rc, keys, broken) in sorted(out.items()):
         if rc == 0:
             continue
+        fired = True
         print("%s exit=%d" % (p, rc))
         for k in keys:
             print("    %s  @ %s  %s" % k)
